@@ -1,5 +1,5 @@
 (* C13: final forms (explicit action lists), historical refutations, example. *)
-From Gv Require Import C12.Model C12.Spec C13.Spec C12.ProofsBase C12.ProofsReg C12.ProofsC12 C13.ProofsC13 C13.ProofsCause C12.Witness.
+From Gv Require Import C12.Model C12.Spec C13.Spec C12.ProofsBase C12.ProofsReg C12.ProofsC12 C13.ProofsC13 C13.ProofsCause C13.ProofsIdent C12.Witness.
 From Coq Require Import List Bool Arith PeanoNat Lia.
 Import ListNotations.
 
@@ -40,11 +40,21 @@ Section Final.
     Variable inp : sid -> input.
     Variable hdr : sid -> hhash.
 
-    Lemma final_shared_iff_same_input : forall acts st s1 s2, runf acts = Some st -> In s1 (byid st) -> In s2 (byid st) ->
-      s_key (subs st s1) = keyof (inp s1) (hdr s1) -> s_key (subs st s2) = keyof (inp s2) (hdr s2) ->
+    (* every subscribe action of the history names its subscriber under the key of its own (input, headers) *)
+    Definition keyed (acts : list action) : Prop :=
+      forall n s k c hb sy, In (AClient n (CSub s k c hb sy)) acts -> k = keyof (inp s) (hdr s).
+
+    Lemma final_shared_iff_same_input : forall acts st s1 s2, runf acts = Some st -> keyed acts ->
+      In s1 (byid st) -> In s2 (byid st) ->
       (s_tid (subs st s1) = s_tid (subs st s2) <-> inp s1 = inp s2 /\ hdr s1 = hdr s2).
     Proof.
-      intros acts st s1 s2 Hr H1 H2 K1 K2. rewrite (final_shared_iff_same_key acts st s1 s2 Hr H1 H2), K1, K2.
+      intros acts st s1 s2 Hr Hk H1 H2.
+      assert (HR : RG st) by (eapply RG_reachable, reach_of_run; eauto).
+      assert (Hkey : forall s, In s (allsubs st) -> s_key (subs st s) = keyof (inp s) (hdr s)).
+      { apply (key_of_run fixed flt wresf ev_bad hbfail (fun s => keyof (inp s) (hdr s)) acts st); [|exact Hr].
+        intros a Ha n s k c hb sy ->. eapply Hk; eauto. }
+      rewrite (final_shared_iff_same_key acts st s1 s2 Hr H1 H2).
+      rewrite (Hkey s1) by apply (rg_byid _ HR s1 H1). rewrite (Hkey s2) by apply (rg_byid _ HR s2 H2).
       split; [apply keyof_inj|intros [-> ->]; reflexivity].
     Qed.
   End Identity.
@@ -72,11 +82,15 @@ Definition ex_collide : list action :=
   sub_started 1 1 0 ++ [AClient 2 (CSub 2 0 2 false false)] ++ n 2 (TCl 2).
 Lemma sharing_needs_injective_key_proof :
   exists (keyof : nat * nat -> nat -> key) (inp : sid -> nat * nat) (hdr : sid -> nat) st,
-    run fixed flt0 wres0 bad0 hb0 init ex_collide = Some st /\ In 1 (byid st) /\ In 2 (byid st) /\
-    s_key (subs st 1) = keyof (inp 1) (hdr 1) /\ s_key (subs st 2) = keyof (inp 2) (hdr 2) /\
+    run fixed flt0 wres0 bad0 hb0 init ex_collide = Some st /\
+    (forall n s k c hb sy, In (AClient n (CSub s k c hb sy)) ex_collide -> k = keyof (inp s) (hdr s)) /\
+    In 1 (byid st) /\ In 2 (byid st) /\
     inp 1 <> inp 2 /\ s_tid (subs st 1) = s_tid (subs st 2) /\ starts (chron st) = [0].
 Proof.
   exists (fun i _ => fst i), (fun s => (0, s)), (fun _ => 0). eexists. split; [vm_compute; reflexivity|].
+  split.
+  { intros n s k c hb sy Hi. unfold ex_collide, sub_started in Hi. simpl in Hi.
+    repeat (destruct Hi as [Hi|Hi]; [inversion Hi; subst; reflexivity|]). destruct Hi. }
   repeat split; try (vm_compute; tauto); try (vm_compute; reflexivity). intro H; discriminate.
 Qed.
 
